@@ -125,6 +125,16 @@ class C20(Spec):
                    "floating-point rounding is not modelled in the theorems; exact-mode estimates are compared with the exact rational mean of the "
                    "kernel values within (n+2)*4 ulp-relative, and bit-exactly with the Float model"]
 
+    def extra_stages(self, rep, tier, rng, broken):
+        # measured oracle figures go into the evidence (coverage.oracle_checks / coverage.transitions_hit)
+        self._stats = {}
+        rep.cov["oracle_checks"] = self._stats
+
+    def _count(self, key, by=1):
+        st = getattr(self, "_stats", None)
+        if st is not None:
+            st[key] = st.get(key, 0) + by
+
     # ------------------------------------------------------------------------- generator
     def _coord(self, rng, ty, mode):
         if rng.random() < 0.06:
@@ -208,7 +218,11 @@ class C20(Spec):
         h = ["rnd 7", "new 0 %s 0 0 1" % ty, "new 0 %s 1 1 2" % ty, "new 0 %s 0 2 2" % ty, "q 0 %s" % self._point(rng, ty, 2, "grid"),
              "new 1 %s 0 3 3" % ty, "merge 0 1", "upd 1 %s" % self._point(rng, ty, 3, "grid"), "merge 0 1", "merge 1 0",
              "upd 0", "upd 0 %s" % self._point(rng, ty, 2, "grid"), "merge 1 0", "mergemv 0 1", "q 1 %s" % self._point(rng, ty, 3, "grid"),
-             "new 2 %s 2 65535 1" % ty, "upd 2 %s" % self._point(rng, ty, 1, "grid"), "dump 2", "dump 9"]
+             "new 2 %s 2 65535 1" % ty, "upd 2 %s" % self._point(rng, ty, 1, "grid"), "dump 2", "dump 9",
+             # sketches that check_k must refuse (if it does not: k = 0 makes the compaction loop spin / index an empty level)
+             "new 5 %s 0 0 1" % ty, "upd 5 %s" % self._point(rng, ty, 1, "grid"), "upd 5 %s" % self._point(rng, ty, 1, "grid"),
+             "new 6 %s 0 1 1" % ty, "upd 6 %s" % self._point(rng, ty, 1, "grid"), "upd 6 %s" % self._point(rng, ty, 1, "grid"),
+             "upd 6 %s" % self._point(rng, ty, 1, "grid"), "q 6 %s" % self._point(rng, ty, 1, "grid"), "dump 6"]
         return h
 
     def _exhaustive(self, rng):
@@ -228,7 +242,7 @@ class C20(Spec):
         return hs
 
     def generate(self, rng, tier):
-        nh = 110 if tier == "quick" else 900
+        nh = 300 if tier == "quick" else 3000
         hs = [self._history(rng, tier) for _ in range(nh)]
         hs += [self._malformed(rng) for _ in range(2 if tier == "quick" else 6)]
         ex = self._exhaustive(rng)
@@ -246,6 +260,14 @@ class C20(Spec):
 
         def check_state(sid, o, i):
             c = cfg[sid]
+            self._count("state_checks")
+            if o["L"] is not None:
+                self._count("bound_checks_with_level_count")
+                st = getattr(self, "_stats", None)
+                if st is not None:
+                    st["max_levels_seen"] = max(st.get("max_levels_seen", 0), o["L"])
+            if o["r"] == 0 and o["n"] > 0:
+                self._count("emptied_states_seen")
             if o["n"] != exp_n[sid]:
                 bad.append(("n-not-exact", "get_n=%d expected=%d" % (o["n"], exp_n[sid]), i))
                 exp_n[sid] = o["n"]
@@ -282,9 +304,9 @@ class C20(Spec):
                 continue
             if op == "new":
                 sid, ty, ker, k, dim = int(w[1]), w[2], int(w[3]), int(w[4]), int(w[5])
-                if k < 2:
-                    if out != "throw":
-                        bad.append(("k<2-accepted", out[:60], i))
+                if out == "throw":     # check_k refused (the bound itself is DSGen.density_MIN_K; the theorems need only MIN_K >= 1)
+                    if k >= 2:
+                        bad.append(("valid-k-refused", "k=%d" % k, i))
                     continue
                 o = parse_S(out)
                 if o is None:
@@ -404,12 +426,14 @@ class C20(Spec):
                     bad.append(("estimate-negative-or-not-finite", "NaN", i))
                     continue
                 e = unhex(c["ty"], tok)
+                self._count("estimates_checked_nonneg_finite")
                 if math.isinf(e) or e < 0.0:
                     bad.append(("estimate-negative-or-not-finite", repr(e), i))
                     continue
                 if ls is not None and ls["L"] == 1 and sid not in lossy and inputs[sid] and len(inputs[sid]) == ls["n"]:
                     vals = [kernel_value(c["ty"], c["ker"], p, q) for p in inputs[sid]]
                     n = len(vals)
+                    self._count("exact_mode_mean_checks")
                     mean = sum(Fraction(v) for v in vals) / n
                     tol = Fraction(4 * (n + 2) * EPS[c["ty"]]) * mean + n * Fraction(TINY[c["ty"]])
                     if abs(Fraction(e) - mean) > tol:
@@ -426,6 +450,7 @@ class C20(Spec):
                 for t in toks:
                     wt, cs = t.split(":", 1)
                     pts.append((int(wt), tuple(unhex(c["ty"], x) for x in cs.split(",")) if cs != "-" else ()))
+                self._count("dumps_checked_against_inputs")
                 if ls is not None and len(pts) != ls["r"]:
                     bad.append(("retained-ne-iterated", "get_num_retained=%d dumped=%d" % (ls["r"], len(pts)), i))
                 if sid not in lossy:
